@@ -14,6 +14,18 @@ NA = {
  "C17": "traversal is a pure function of (tree, callback return table); the visitor allocates nothing and meets no fault or schedule",
 }
 CHECKS = {
+ "C03": dict(level="exploration", ref="5.1",
+   technique="deterministic simulation: seeded chunk schedules (transport cutting one byte stream into parse_ex calls) vs one-shot parse of the concatenation on a fresh parser",
+   text="For each generated/mutated stream: every single cut position, seeded multi-cut partitions (with zero-length chunks) and byte-at-a-time delivery, all 8 flag combinations, several depth limits; after each call the (status, typed value, end position) triple is compared with one call on the same bytes by a fresh parser, and parsing resumes on the same parser after a success. Sampling over streams, exhaustive over single cuts per stream.",
+   note="Differential oracle: the reference is json-c itself (one-shot); typed dump through the public API; ASan/UBSan active."),
+ "C04": dict(level="exploration", ref="5.2",
+   technique="deterministic simulation: seeded parser sessions (feed/abandon/reset/free histories over arbitrary bytes) with mirror-parser oracle and exact allocation accounting",
+   text="Seeded sessions over random bytes, JSON soup, mutated texts, over-deep nesting and long tokens, abandoned at arbitrary chunk boundaries; checks outcome well-formedness, end position <= length, ASan/UBSan silence, empty live-allocation set after free, and that everything after a reset behaves exactly like on a brand-new parser (mirror).",
+   note="Trusts ASan/UBSan for memory safety, exact-size chunk buffers for over-reads, the allocator wrapper for leak accounting; respects the documented reset-after-error precondition."),
+ "C08": dict(level="fault_enumeration", ref="5.6",
+   technique="deterministic simulation with fault injection: per generated workload every allocation index k<N is failed in turn (plus sampled pairs) behind the allocator seam; differential oracle vs the unfaulted execution",
+   text="Exhaustive single-fault enumeration per workload over parse (3 modes), 12 constructors, object/array mutation at growth thresholds, set_string, deep_copy, serialization (flag sets, cached buffer), JSON pointer set/get, JSON patch, from_fd, tokener_new, double-format setter. Each faulted execution must give the unfaulted result or a clean documented failure, leave pre-existing trees unchanged and usable (retry succeeds), not consume caller arguments, and leak nothing. Sampled over workloads.",
+   note="Exhaustive in the fault index per workload only; call sites named via frame-pointer walk; errno values and the exact parser error code after a memory failure are not part of the oracle."),
  "C19": dict(level="exploration", ref="5.10",
    technique="deterministic simulation: seeded op histories on a printbuf vs byte-vector model, with injected allocation failures and a finite-capacity allocator",
    text="Seeded exploration of append/fill/printf/reset histories with allocation faults against a byte-array reference model, checked after every op under ASan/UBSan. Sampling, not proof: evidence for the explored histories.",
@@ -35,6 +47,11 @@ def main():
             "technique": c["technique"],
         })
     na = [{"property_id": k, "reason": v} for k, v in sorted(NA.items()) if k not in CHECKS]
+    for i in range(1, 21):
+        pid = "C%02d" % i
+        if pid not in CHECKS and pid not in NA:
+            na.append({"property_id": pid, "reason": "check under construction in this session (planned in DESIGN.md §0); not claimed until it is registered here"})
+    na.sort(key=lambda x: x["property_id"])
     m = {
         "version": 1,
         "setup_cmd": "bash scripts/setup.sh",
